@@ -174,6 +174,7 @@ def gen_sv_case(rng, cid, nops):
 class C16(flow.Spec):
     pid = "C16"
     harness = dict(name="c16", sources=["c16.cpp"])
+    source_files = ("tlx/container/ring_buffer.hpp", "tlx/container/simple_vector.hpp")
     nontrivial_rule = ("random operation histories over 3 RingBuffer / 3 SimpleVector registers, capacities 0..9, "
                        "generated from VERIF_SEED; a RingBuffer case is non-trivial when begin_ or end_ wrapped "
                        "around (a push_front from begin_=0 or a cursor reaching 0 again after being positive) and it "
